@@ -33,7 +33,7 @@ def main() -> int:
             c = subprocess.run([sys.executable, os.path.join(VERIF, "check.py"), p, "--tier", "quick", "--src", pkg], cwd=VERIF, env=env, capture_output=True, text=True)
             return p, c.returncode, c.stdout
         bad = 0
-        with ThreadPoolExecutor(max_workers=16) as ex:
+        with ThreadPoolExecutor(max_workers=int(os.environ.get("VERIF_PAR", "16"))) as ex:
             for p, rc, out in ex.map(one, props):
                 if rc != 0:
                     bad += 1
